@@ -47,7 +47,9 @@ SPEC = dict(
          'contains a pair of accesses with conflicting modes (exhaustive over the table: bound = the table); the static verdict is '
          'the verified classifier evaluated inside Coq, the dynamic observation is the number of Go race-detector reports mapped to '
          'the group while the real sensor monitors, controllers (prelude + RPM monitor + control loop + restore), REST handlers '
-         '(list and item endpoints through echo.ServeHTTP), Prometheus collectors (registry Gather) and a third-party pwm writer '
+         '(list and item endpoints through echo.ServeHTTP), Prometheus collectors (registry Gather), a third-party pwm writer and '
+         'transient injected device faults (stateless, lock-free file-layer hooks: ~3% of sensor reads, ~4% rpm reads, ~2% pwm reads and writes fail, '
+         'so every error / warning path incl. failed PID-curve evaluation -> restore -> controller restart runs under the detector) '
          'run in-process at 1 ms tick rates on 4 fans (2 hwmon, file, cmd) sharing one sensor and one PID curve, for `rounds` child '
          'processes of `ms` milliseconds each (seeded request mix; schedules are not reproducible). Every report is parsed (both '
          'stacks), its goroutine kinds are read off the stacks and it is mapped to a pair of table entries; a report that maps to '
@@ -62,6 +64,7 @@ SPEC = dict(
         'curves, sensors and PID state shared; API and metrics requests concurrent with everything and with each other)',
         'locks: function-level `mu.Lock(); defer mu.Unlock()` only; an instance mutex guards the fields of its own receiver in that function, a package-level mutex guards the callees too',
         'reflection (reprint.This, encoding/json, echo JSON*) reads every field of every module type reachable from the static argument type; json.Unmarshal writes its target',
+        'a pointer to a module struct or a module interface value converted to `any` (argument of ui.Warning / fmt.*: %v formatting) is an unlocked read of every field of the struct(s)',
     ],
     trusted_base=[
         'translator tools/accesses (go/packages + go/ssa, ~900 lines Go) and tools/gen_accesses.py: its table is the object of the theorems; '
